@@ -140,6 +140,27 @@ theorem miss_spec (nums : List Int) (m : Int) :
     · rintro ⟨h1, h2, h3⟩
       exact ⟨⟨(m - 1).toNat, by omega, by omega⟩, h3⟩
 
+/-- computed in the field's signed 16-bit type the list is the same as long as the last number is below 32767 ... -/
+theorem missLinesI16_eq (nums : List Int) (h : ∀ last, nums.getLast? = some last → 0 ≤ last ∧ last < 32767) :
+    missLinesI16 nums = missLines nums := by
+  unfold missLinesI16 missLines
+  cases hl : nums.getLast? with
+  | none => rfl
+  | some last =>
+    obtain ⟨h0, h1⟩ := h last hl
+    have : ((last + 1 + 32768) % 65536 - 32768 - 1).toNat = last.toNat := by omega
+    simp only [this]
+
+/-- ... and EMPTY for a pass ending at 32767, whatever is absent (the defect repaired by 7ab6521, reproduced through
+the POD LAC reader; the model `missLines` over the integers is what the code does now) -/
+theorem missLinesI16_top (nums : List Int) (h : nums.getLast? = some 32767) : missLinesI16 nums = [] := by
+  unfold missLinesI16
+  rw [h]
+  rfl
+
+example : missLinesI16 [32760, 32767] = [] ∧ (32761 : Int) ∈ missLines [32760, 32767] :=
+  ⟨missLinesI16_top _ rfl, (miss_spec _ _).mpr ⟨by omega, by decide, by decide⟩⟩
+
 /-- day of year of an instant, given the year it lies in -/
 def dayOfYear (year : Int) (t : Int) : Int := dayOf t - daysToYear year + 1
 
